@@ -245,4 +245,18 @@ theorem emitted_db (x : Int) : s!"db {x}" = "db" ++ " " ++ toString x := by
 theorem emitted_dw (x : Int) : s!"dw {x}" = "dw" ++ " " ++ toString x := by
   show "dw " ++ toString x = _; rw [show ("dw " : String) = "dw" ++ " " from rfl]
 
+/-! ### C10 for data lines: what the assembler emits for numeric definitions, the loader accepts -/
+
+/-- the value of an `s_byte_num` (−128..255) rendered into `db {}` is a line the loader accepts -/
+theorem db_line_accepted (x : Int) (h : -128 ≤ x ∧ x ≤ 255) : (parseData s!"db {x}").isSome = true := by
+  rw [emitted_db, parse_render_db_int, if_pos h]; rfl
+theorem dw_line_accepted (x : Int) (h : -32768 ≤ x ∧ x ≤ 65535) : (parseData s!"dw {x}").isSome = true := by
+  rw [emitted_dw, parse_render_dw_int, if_pos h]; rfl
+/-- ... and outside that range the loader refuses it: the assembler's range check is what keeps the
+    internal-error path unreachable -/
+theorem db_line_refused (x : Int) (h : ¬ (-128 ≤ x ∧ x ≤ 255)) : parseData s!"db {x}" = none := by
+  rw [emitted_db, parse_render_db_int, if_neg h]
+theorem dw_line_refused (x : Int) (h : ¬ (-32768 ≤ x ∧ x ≤ 65535)) : parseData s!"dw {x}" = none := by
+  rw [emitted_dw, parse_render_dw_int, if_neg h]
+
 end Emu8086.Props.C12Text
